@@ -55,6 +55,9 @@ func (c *clipperBase) baseAddPaths(paths Paths64, polytype PathType, isOpen bool
 	if isOpen {
 		c.hasOpenPaths = true
 	}
+	if polytype > Clip {
+		polytype = Clip
+	}
 
 	c.isSortedMinimaList = false
 	addPathsToVertexList(paths, polytype, isOpen, &c.minimaList, &c.vertexList)
@@ -304,8 +307,13 @@ func (c *clipperBase) buildPath(op *OutPt, reverse, isOpen bool, path *Path64) b
 }
 
 func (c *clipperBase) executeInternal(ct ClipType, fillRule FillRule) {
-	if ct == NoClip {
+	if ct == NoClip || ct > Xor {
+		// nothing to clip: an empty solution, not a failure
+		c.succeeded = true
 		return
+	}
+	if fillRule > Negative {
+		fillRule = EvenOdd
 	}
 
 	c.fillRule = fillRule
